@@ -141,7 +141,11 @@ class LiteralEvaluator:
 			True = 正常
 		"""
 		quotes = ['"', "'"]
-		return len(string) >= 2 and string[0] in quotes and string[-1] in quotes
+		if not (len(string) >= 2 and string[0] in quotes and string[-1] in quotes):
+			return False
+
+		# 三連引用符のリテラルは引用符の除去が正しく行えないため非対応
+		return not (len(string) >= 6 and string.startswith(string[0] * 3))
 	
 	def _cat(self, left: str, right: str) -> str:
 		"""文字列結合
@@ -153,7 +157,13 @@ class LiteralEvaluator:
 			結合結果
 		"""
 		quote = left[0]
-		return f'{quote}{left[1:-1]}{right[1:-1]}{quote}'
+		left_in, right_in = left[1:-1], right[1:-1]
+		if right[0] != quote and quote in right_in:
+			# 右辺の内容に左辺の引用符が含まれる場合は右辺の引用符で囲う。どちらの引用符でも囲えない場合は非対応
+			assert right[0] not in left_in
+			quote = right[0]
+
+		return f'{quote}{left_in}{right_in}{quote}'
 
 	def on_argument(self, node: defs.Argument, label: Evaluator.Value, value: Evaluator.Value) -> Evaluator.Value:
 		return value
